@@ -865,11 +865,42 @@ def _sweep_worker(task):
     return cnt, ctx.counters, fails, digests
 
 
+def zero_column_frames(ctx):
+    """frames with rows but NO column (oracle only): no cell is missing, so isna / notna / fills return the frame as it is, and
+    dropna removes a row exactly when the condition holds of its (empty) set of cells - `all` holds vacuously, `any` does not;
+    there is no column to remove"""
+    import static_frame as sf
+    out = []
+    for n in (0, 1, 3):
+        f = sf.Frame(index=tuple(f'r{i}' for i in range(n)))
+        c = {'k': 'zerocol', 'rows': n}
+        for axis in (0, 1):
+            for cond, fn in (('all', np.all), ('any', np.any)):
+                ctx.evaluations += 1
+                ctx.count('zero_column_dropna')
+                exp_rows = 0 if (axis == 0 and cond == 'all') else n
+                try:
+                    r = f.dropna(axis=axis, condition=fn)
+                    if r.shape != (exp_rows, 0) or list(r.index) != list(f.index)[:exp_rows]:
+                        out.append(Failure('oracle', f'dropna(axis={axis}, condition=np.{cond}) of a frame with {n} rows and no column: shape {r.shape}, expected ({exp_rows}, 0)', c))
+                except Exception as ex:
+                    out.append(Failure('oracle', f'dropna(axis={axis}, condition=np.{cond}) of a frame with {n} rows and no column raised {type(ex).__name__}: {ex}', c))
+        for name in ('isna', 'notna'):
+            try:
+                r = getattr(f, name)()
+                if r.shape != (n, 0):
+                    out.append(Failure('oracle', f'{name} of a frame with {n} rows and no column: shape {r.shape}', c))
+            except Exception as ex:
+                out.append(Failure('oracle', f'{name} of a frame with {n} rows and no column raised {type(ex).__name__}: {ex}', c))
+    return out
+
+
 def extra(ctx):
     """thorough tier: EVERY missing pattern of the 3x4 float frame x every layout x limit 0..4 x both axes x both
     directions (+ sided fills) on the real code against the oracle, spread over worker processes."""
+    out0 = zero_column_frames(ctx)
     if ctx.tier != 'thorough':
-        return []
+        return out0
     import multiprocessing as mp
     import os
     n, m = 3, 4
@@ -888,7 +919,7 @@ def extra(ctx):
             for kind, what, case, detail, finding in fails:
                 if case is not None:
                     out.append(Failure(kind, what, case, finding=finding, detail=detail))
-    return out
+    return out0 + out
 
 
 def cases(ctx):
